@@ -225,6 +225,18 @@ func classify(err error) (obs string, extra string) {
 type fn = func(interface{}) ([]interface{}, error)
 
 // parseObs calls Parse and classifies the outcome. extra carries `near` for syntax errors.
+// parseObs2 passes two Configs to Parse (only the first is documented to be used)
+func parseObs2(path string, cfg, cfg2 *jsonpath.Config) (f fn, obs string, extra string) {
+	defer func() {
+		if r := recover(); r != nil {
+			f = nil
+			obs = "panic:" + hx(fmt.Sprint(r))
+		}
+	}()
+	ff, err := jsonpath.Parse(path, *cfg, *cfg2)
+	return finishParseObs(ff, err)
+}
+
 func parseObs(path string, cfg *jsonpath.Config) (f fn, obs string, extra string) {
 	defer func() {
 		if r := recover(); r != nil {
@@ -233,11 +245,16 @@ func parseObs(path string, cfg *jsonpath.Config) (f fn, obs string, extra string
 		}
 	}()
 	var err error
+	var ff fn
 	if cfg == nil {
-		f, err = jsonpath.Parse(path)
+		ff, err = jsonpath.Parse(path)
 	} else {
-		f, err = jsonpath.Parse(path, *cfg)
+		ff, err = jsonpath.Parse(path, *cfg)
 	}
+	return finishParseObs(ff, err)
+}
+
+func finishParseObs(f fn, err error) (fn, string, string) {
 	if err == nil {
 		if f == nil {
 			return nil, "nilnil", ""
@@ -247,7 +264,7 @@ func parseObs(path string, cfg *jsonpath.Config) (f fn, obs string, extra string
 	if f != nil {
 		return nil, "both:" + hx(err.Error()), ""
 	}
-	obs, extra = classify(err)
+	obs, extra := classify(err)
 	switch err.(type) {
 	case jsonpath.ErrorInvalidSyntax, jsonpath.ErrorInvalidArgument, jsonpath.ErrorFunctionNotFound, jsonpath.ErrorNotSupported:
 		return nil, obs, extra
